@@ -149,6 +149,10 @@ def run(ctx):
         "blocks_with_accrual_to_two_or_more_delegators": rep["blocks_with_accrual_to_two_or_more_delegators"],
         "accruals_right_after_a_reinvestment_by_the_same_delegator": rep["accruals_right_after_a_reinvestment_by_the_same_delegator"],
         "alien_keys": rep["alien_keys"],
+        "successful_reinvests": rep["successful_reinvests"],
+        "successful_reinvests_directly_after_a_successful_undelegate": rep["successful_reinvests_directly_after_a_successful_undelegate"],
+        "successful_reinvests_directly_after_an_undelegate_by_another_delegator": rep["successful_reinvests_directly_after_an_undelegate_by_another_delegator"],
+        "node_restarts": rep["node_restarts"],
         "model_mismatches": len(mm), "monitor_failures": len(mon),
         "cases_in_negative_undelegate_trigger_region": sum(1 for t in tr if t[0]),
         "cases_in_negative_reward_withdrawal_trigger_region": sum(1 for t in tr if t[1]),
@@ -160,9 +164,15 @@ def run(ctx):
                        "active (= without donations), BeginBlock credit of every delegator = amount due at that height, matured payments >= 0, "
                        "reward balances and delegator balances >= 0; the replays of all recorded findings run as cases",
     })
-    if rep["alien_keys"]:
-        raise Broken("delegation keys of addresses outside the cast appeared", "")
     stats = judge(ctx, cases, mm, mon, tr)
+    if rep["alien_keys"] and ctx.violations == 0:
+        # a delegation-store key that is neither deleg_a_<cast address>, deleg_p_<height>_<cast address> nor a reward
+        # key of the cast: report the history that made the application write it
+        for c in cases:
+            if c.get("alien"):
+                ctx.violation("%s_alien_key" % c["spec"]["name"], {"spec": c["spec"], "kind": "malformed-delegation-store-key",
+                              "keys": sorted(set(c["alien"]))[:5], "how": "./check replay <this file>"})
+                break
     cov["monitor_failures_by_class"] = {CLASSES[k]: sum(1 for m in mon if m[2] == k) for k in CLASSES}
     cov["known_finding_cases"] = {T_NEGUND: len(stats["known_negund_cases"]), T_NEGRW: len(stats["known_negrw_cases"]),
                                   T_NEGRI: len(stats["known_negri_cases"])}
@@ -181,4 +191,8 @@ def replay(ctx, rp):
     print("model_mismatches (case, step)", mm)
     print("monitor failures (case, step, class)", [(a, b, CLASSES.get(c, c)) for a, b, c in mon])
     print("triggers (negative undelegate, negative reward withdrawal, negative reinvest)", tr)
+    print("malformed / foreign delegation-store keys", sorted({k for c in cases for k in (c.get("alien") or [])}))
     judge(ctx, cases, mm, mon, tr)
+    if rep["alien_keys"] and ctx.violations == 0:
+        ctx.violation("%s_alien_key" % cases[0]["spec"]["name"], {"spec": cases[0]["spec"], "kind": "malformed-delegation-store-key",
+                      "keys": sorted(set(cases[0].get("alien") or []))[:5]})
